@@ -253,9 +253,61 @@ void vp_c09_arity15(int b, vp_obs15& o)
   vp_M15 m;
   int a1 = b, a2 = b, a3 = b, a4 = b, a5 = b, a6 = b, a7 = b, a8 = b, a9 = b, a10 = b, a11 = b, a12 = b, a13 = b, a14 = b, a15 = b;
   REQUIRE_CALL(m, w(_, _, _, _, _, _, _, _, _, _, _, _, _, _, _))
+    .LR_WITH(&_1 == &a1 && &_2 == &a2 && &_3 == &a3 && &_4 == &a4 && &_5 == &a5 && &_6 == &a6 && &_7 == &a7 && &_8 == &a8 && &_9 == &a9 && &_10 == &a10 && &_11 == &a11 && &_12 == &a12 && &_13 == &a13 && &_14 == &a14 && &_15 == &a15)
     .SIDE_EFFECT((_1 += 1, _2 += 2, _3 += 3, _4 += 4, _5 += 5, _6 += 6, _7 += 7, _8 += 8, _9 += 9, _10 += 10, _11 += 11, _12 += 12, _13 += 13, _14 += 14, _15 += 15))
-    .RETURN(_15);
+    .RETURN((_1 += 100, _2 += 100, _3 += 100, _4 += 100, _5 += 100, _6 += 100, _7 += 100, _8 += 100, _9 += 100, _10 += 100, _11 += 100, _12 += 100, _13 += 100, _14 += 100, _15 += 100, _15));
   o.ret = m.w(a1, a2, a3, a4, a5, a6, a7, a8, a9, a10, a11, a12, a13, a14, a15);
+  o.v[0] = a1; o.v[1] = a2; o.v[2] = a3; o.v[3] = a4; o.v[4] = a5; o.v[5] = a6; o.v[6] = a7; o.v[7] = a8; o.v[8] = a9; o.v[9] = a10;
+  o.v[10] = a11; o.v[11] = a12; o.v[12] = a13; o.v[13] = a14; o.v[14] = a15;
+}
+// C09: rvalue and move-only arguments, an overloaded mock function, and a mock implementing an interface (called through the base)
+struct vp_cnt {
+  int v; int* copies;
+  vp_cnt(int x, int* c) : v(x), copies(c) {}
+  vp_cnt(const vp_cnt& r) : v(r.v), copies(r.copies) { ++*copies; }
+  vp_cnt(vp_cnt&& r) : v(r.v), copies(r.copies) { r.v = -1; ++*copies; }
+};
+struct vp_I {
+  virtual ~vp_I() = default;
+  virtual int take(vp_cnt&&) = 0;
+  virtual int take(int) = 0;
+  virtual int up(std::unique_ptr<int>) = 0;
+};
+struct vp_MI : vp_I {
+  MAKE_MOCK1(take, int(vp_cnt&&), override);
+  MAKE_MOCK1(take, int(int), override);
+  MAKE_MOCK1(up, int(std::unique_ptr<int>), override);
+};
+void vp_c09_rvalue(int x0, int k, vp_obs& o)
+{
+  vp_MI m; vp_I& i = m; int copies = 0;
+  vp_cnt c(x0, &copies);
+  vp_cnt* seen = nullptr;
+  REQUIRE_CALL(m, take(ANY(vp_cnt&&))).LR_SIDE_EFFECT(seen = &_1).LR_SIDE_EFFECT(_1.v = _1.v + k).RETURN(_1.v);
+  REQUIRE_CALL(m, take(ANY(int))).RETURN(_1 - 1);
+  o.ret = i.take(std::move(c));
+  o.x = (seen == &c) && copies == 0; o.y = c.v;
+  o.extra = i.take(x0);
+}
+void vp_c09_moveonly(int x0, vp_obs& o)
+{
+  vp_MI m; vp_I& i = m;
+  std::unique_ptr<int> kept;
+  REQUIRE_CALL(m, up(trompeloeil::_)).LR_WITH(_1 != nullptr).LR_SIDE_EFFECT(*_1 = *_1 + 1).LR_SIDE_EFFECT(kept = std::move(_1)).RETURN(_1 == nullptr);
+  auto p = std::unique_ptr<int>(new int(x0)); int* raw = p.get();
+  o.ret = i.up(std::move(p));
+  o.x = (kept.get() == raw); o.y = *kept; o.extra = (p == nullptr);
+}
+void vp_c09_arity15_throw(int b, vp_obs15& o)
+{
+  using trompeloeil::_;
+  vp_M15 m;
+  int a1 = b, a2 = b, a3 = b, a4 = b, a5 = b, a6 = b, a7 = b, a8 = b, a9 = b, a10 = b, a11 = b, a12 = b, a13 = b, a14 = b, a15 = b;
+  REQUIRE_CALL(m, w(_, _, _, _, _, _, _, _, _, _, _, _, _, _, _))
+    .THROW((_1 += 1, _2 += 2, _3 += 3, _4 += 4, _5 += 5, _6 += 6, _7 += 7, _8 += 8, _9 += 9, _10 += 10, _11 += 11, _12 += 12, _13 += 13, _14 += 14, _15 += 15, 7));
+  o.ret = 0;
+  try { m.w(a1, a2, a3, a4, a5, a6, a7, a8, a9, a10, a11, a12, a13, a14, a15); }
+  catch (...) { o.ret = 1; }
   o.v[0] = a1; o.v[1] = a2; o.v[2] = a3; o.v[3] = a4; o.v[4] = a5; o.v[5] = a6; o.v[6] = a7; o.v[7] = a8; o.v[8] = a9; o.v[9] = a10;
   o.v[10] = a11; o.v[11] = a12; o.v[12] = a13; o.v[13] = a14; o.v[14] = a15;
 }
